@@ -124,6 +124,17 @@ def run(repo, chk):
     for st, t, v in sp.assigns(chain="self._peer_certificate"):
         chk.ob("R1", "_set_peer_certificate: leaf is the first certificate of the message", "certificates[0][0]" in norm(v), f"assigned {norm(v)[:80]}", sp.loc(st))
 
+    # the configuration the verification depends on is written once, by the constructor, from its parameters
+    m_tls = repo.mod("tls")
+    for field, param in (("_server_name", "server_name"), ("_verify_mode", None), ("_cadata", "cadata"), ("_cafile", "cafile"), ("_capath", "capath")):
+        writers = []
+        for q in sorted(m_tls.functions):
+            if q.startswith("Context."):
+                wf = Fn(repo, "tls:" + q)
+                for st, t, v in wf.assigns(chain="self." + field):
+                    writers.append((q, norm(v) if v is not None else None))
+        okw = bool(writers) and all(q == "Context.__init__" for q, v in writers) and (param is None or all(v == param for q, v in writers))
+        chk.ob("R1", f"Context.{field} (input of the certificate / name verification) is written only by __init__ from its parameter", okw, f"writers {writers}: a later overwrite changes what the peer's certificate is checked against (e.g. a cleared server name skips the name check)", "")
     # ---- R1: the dominance obligations shared with C11 --------------------------------
     transitions_after(repo, chk, ref, "R1")
     for spec in ref["key_release"]:
